@@ -55,6 +55,7 @@ static Thr th[MAXT];
 static int nth = 0;
 static int cur = 0;
 static bool g_active = false;
+static bool traceClock = false; // debugging aid: VSIM_TRACE_CLOCK=1 prints every clock read
 static Config cfg;
 static Stats st_;
 static uint64_t rng = 0;
@@ -138,6 +139,7 @@ void init(const Config& c) {
             if (pctPoints[j] < pctPoints[i]) std::swap(pctPoints[i], pctPoints[j]);
     pctNext = 0;
     freezeNext = jumpNext = 0;
+    traceClock = getenv("VSIM_TRACE_CLOCK") != nullptr;
     g_active = true;
 }
 
@@ -600,6 +602,7 @@ int __wrap_clock_gettime(clockid_t k, timespec* t) {
         vnow += cfg.clockReadCostNs;
     st_.clockReads[th[me].role < R_NROLES ? th[me].role : 0]++;
     yield(S_CLOCK);
+    if (traceClock) fprintf(stderr, "clock t%d role%d %lld us\n", me, th[me].role, vnow / 1000);
     t->tv_sec = vnow / 1000000000LL;
     t->tv_nsec = vnow % 1000000000LL;
     return 0;
